@@ -28,21 +28,27 @@ func NewRelay(ctx context.Context, in, out ITracer, transformer Transformer) {
 	ch := in.Subscribe()
 	handle := out.RegisterSender()
 	go func() {
+		// a done context and a closed subscription are ready forever: each is taken out of
+		// the select once seen, otherwise this loop spins until `in` is done
+		cancelled := ctx.Done()
+		incoming := ch
 		for {
 			select {
 			case <-in.Done():
 				handle.Done()
 				in.Unsubscribe(ch)
 				return
-			case <-ctx.Done():
+			case <-cancelled:
 				// wait until `in` Tracer is done
-				//return
-			case trace, ok := <-ch:
+				cancelled = nil
+			case trace, ok := <-incoming:
 				if ok {
 					traces := transformer(trace)
 					for _, t := range traces {
 						out.Send(t)
 					}
+				} else {
+					incoming = nil
 				}
 			}
 		}
